@@ -42,9 +42,19 @@ type runLevelCase struct {
 	// write, a very near hop): the reply is read and matched before SendProbe has returned. It arrived
 	// inside the listening window and must be reported like any other.
 	FastReply bool
+	// TargetTE: these TTLs (below DestHop) are answered by a time-exceeded sent FROM THE TARGET ADDRESS
+	// (a load balancer / NAT address that decrements the TTL): an address match without proof of
+	// arrival. For ICMP and TCP SYN that hop must carry the target's address WITHOUT the destination
+	// mark; for UDP any matched ICMP error from the target proves arrival (C04).
+	TargetTE map[int]bool
+	// RouterFirst (parallel engines): the probe that reaches the destination is answered twice — first
+	// by a router's time-exceeded (a path change / a forged reply), a little later by the target's
+	// proof-of-arrival reply. The hop must end up as the target's, marked as the destination.
+	RouterFirst bool
 }
 
 type runLevelOutcome struct {
+	Run        *result.TracerouteRun
 	Err        error
 	Hops       []*result.TracerouteHop
 	Probe      int
@@ -130,11 +140,22 @@ func runRunLevel(t *testing.T, c runLevelCase) runLevelOutcome {
 				}
 				f := hx.Pick(r, cands)
 				from := fl.Target
-				if ttl < c.DestHop {
+				if ttl < c.DestHop && !c.TargetTE[ttl] {
 					from = routerAddr(fl.V6, ttl)
 				}
 				pkt := f.encode(fl, p, from, ttl, seqOfProbe(p))
 				d := time.Duration(r.Range(1, 40))*time.Millisecond + time.Duration(r.Range(1, 999))*time.Microsecond
+				if c.RouterFirst && ttl == c.DestHop && kind != "tcp" {
+					var tes []replyForm
+					for _, g := range forms {
+						if g.Kind == "te" && !g.NATAddr && !g.NATPort {
+							tes = append(tes, g)
+						}
+					}
+					early := hx.Pick(r, tes).encode(fl, p, routerAddr(fl.V6, ttl), ttl, seqOfProbe(p))
+					d += 2 * time.Millisecond
+					time.AfterFunc(d-time.Duration(r.Range(1, 1900))*time.Microsecond, func() { wire.Inject(early) })
+				}
 				fast := c.FastReply && r.Chance(1, 2)
 				if fast {
 					wire.Inject(pkt)
@@ -196,6 +217,7 @@ func runRunLevel(t *testing.T, c runLevelCase) runLevelOutcome {
 		}
 		if run != nil {
 			out.Hops = run.Hops
+			out.Run = run
 		}
 		if wire != nil {
 			wire.mu.Lock()
@@ -239,6 +261,12 @@ func (c runLevelCase) expectedHops() []string {
 		switch {
 		case c.Silent[ttl] && ttl != c.DestHop:
 			hs = append(hs, fmt.Sprintf("%d:-:0", ttl))
+		case ttl < c.DestHop && c.TargetTE[ttl]:
+			if c.Proto == "udp" {
+				hs = append(hs, fmt.Sprintf("%d:%s:1", ttl, c.Target))
+				return hs
+			}
+			hs = append(hs, fmt.Sprintf("%d:%s:0", ttl, c.Target))
 		case ttl < c.DestHop:
 			hs = append(hs, fmt.Sprintf("%d:%s:0", ttl, routerAddr(c.V6, ttl)))
 		default:
@@ -300,6 +328,80 @@ func runLevelStream(t *testing.T, rep *hx.Report, rng *hx.RNG, n int) {
 		if strings.Join(got, " ") != strings.Join(want, " ") {
 			rep.Violate(hx.Violation{Kind: "spec", What: "reported hops differ from the scripted path (every router answered inside its window, noise must not matter)",
 				Sig: map[string]string{"stream": "run", "protocol": c.Proto}, Replay: replay})
+		}
+	}
+}
+
+// c04RunStream (C04 at run level): the public entry points over the seam against paths on which an
+// address match and a proof of arrival come apart — a time-exceeded sent from the target's own
+// address below the destination hop, and a destination probe answered first by a router and then by
+// the target. Judged by the property's wording on the finished run: a hop carries the destination
+// mark exactly when the reply used for it is the target's proof-of-arrival form (then it carries the
+// target's address and that reply's RTT), and the run's destination hop (GetDestinationHop, what the
+// end-to-end probes read) is a marked hop or nothing.
+func c04RunStream(t *testing.T, rep *hx.Report, rng *hx.RNG, n int) {
+	for _, probe := range []string{"198.51.100.9:33434", "[2001:db8::9]:33434"} {
+		if c, err := net.Dial("udp", probe); err != nil {
+			rep.Note("no route for %s (LocalAddrForHost): C04 run-level stream skipped (%v)", probe, err)
+			return
+		} else {
+			c.Close()
+		}
+	}
+	for i := 0; i < n; i++ {
+		c := genRunLevel(rng)
+		c.Noise = rng.Intn(2)
+		c.FastReply = false
+		c.TargetTE = map[int]bool{}
+		switch i % 3 {
+		case 0, 1:
+			for k := rng.Range(1, 2); k > 0; k-- {
+				if c.DestHop > c.Min {
+					c.TargetTE[rng.Range(c.Min, c.DestHop-1)] = true
+				}
+			}
+			if i%3 == 1 {
+				c.DestHop = c.Max + 2 // the target never proves arrival: there is no destination hop at all
+			}
+		}
+		c.RouterFirst = i%3 == 2 || rng.Chance(1, 3)
+		for k := range c.TargetTE {
+			delete(c.Silent, k)
+		}
+		o := runRunLevel(t, c)
+		want := c.expectedHops()
+		got := hopsString(o.Hops)
+		key := fmt.Sprintf("c04|%s|%v|%s|%d|%d|%d|%v|%v|%v|%d", c.Proto, c.V6, c.Target, c.Min, c.Max, c.DestHop, c.Silent, c.TargetTE, c.RouterFirst, c.Seed)
+		replay := map[string]any{"protocol": c.Proto, "target": c.Target.String(), "port": c.Port, "min": c.Min, "max": c.Max,
+			"dest_hop": c.DestHop, "silent": fmt.Sprint(c.Silent), "time_exceeded_from_target_at": fmt.Sprint(c.TargetTE), "router_answers_destination_probe_first": c.RouterFirst,
+			"noise_per_probe": c.Noise, "script_seed": c.Seed, "expected_hops": want, "reported_hops": got, "error": fmt.Sprint(o.Err)}
+		rep.Case("run-dest/"+c.Proto, key, true, replay)
+		rep.Hit(fmt.Sprintf("run-dest:%s:te-from-target=%v:router-first=%v", c.Proto, len(c.TargetTE) > 0, c.RouterFirst && c.Proto != "tcp" && c.Proto != "tcp-paris" && c.DestHop <= c.Max))
+		sig := map[string]string{"stream": "run-dest", "protocol": c.Proto}
+		if o.Err != nil || o.Run == nil {
+			rep.Violate(hx.Violation{Kind: "spec", What: "run over the simulated path failed: " + fmt.Sprint(o.Err), Sig: sig, Replay: replay})
+			continue
+		}
+		if strings.Join(got, " ") != strings.Join(want, " ") {
+			rep.Violate(hx.Violation{Kind: "spec", What: "destination marking differs from the scripted path: a hop is the destination exactly when the reply used for it is the target's proof-of-arrival reply (then it carries the target's address); a time-exceeded from the target's address is not one for this protocol",
+				Sig: sig, Replay: replay})
+			continue
+		}
+		dh := o.Run.GetDestinationHop()
+		marked := 0
+		for _, h := range o.Hops {
+			if h.IsDest {
+				marked++
+			}
+		}
+		switch {
+		case dh == nil && marked > 0:
+			replay["destination_hop"] = "none"
+			rep.Violate(hx.Violation{Kind: "spec", What: "a hop is marked as the destination but the run reports no destination hop", Sig: sig, Replay: replay})
+		case dh != nil && !dh.IsDest:
+			replay["destination_hop"] = fmt.Sprintf("ttl %d %s", dh.TTL, dh.IPAddress)
+			rep.Violate(hx.Violation{Kind: "spec", What: fmt.Sprintf("the run's destination hop (TTL %d, %s) is a hop without proof of arrival: its reply is a time-exceeded that merely came from the target's address", dh.TTL, dh.IPAddress),
+				Sig: sig, Replay: replay})
 		}
 	}
 }
